@@ -29,7 +29,7 @@ vars == <<l, g, viol, drift>>
 G0 == [family |-> "-", cs |-> << >>, app |-> << >>, gseq |-> << >>, cb |-> << >>, cbe |-> << >>, open |-> "",
        last |-> [ev |-> "-", k |-> "-", r |-> "-"], setcb |-> {}, faults |-> {}, lied |-> FALSE,
        ustop |-> FALSE, errseen |-> FALSE, inapp |-> << >>, appmax |-> 0, conns |-> << >>, killed |-> 0,
-       stops |-> {}, started |-> {}, expectKill |-> FALSE, mutex |-> "-"]
+       stops |-> {}, started |-> {}, expectKill |-> FALSE, mutex |-> "-", ignore |-> FALSE]
 
 Init == l = 1 /\ g = G0 /\ viol = {} /\ drift = {}
 
@@ -37,10 +37,14 @@ SeqSet(q) == {q[i] : i \in DOMAIN q}
 In(q, x) == \E i \in DOMAIN q : q[i] = x
 Pfx(s, t) == Len(s) <= Len(t) /\ \A i \in DOMAIN s : s[i] = t[i]
 V(inv, class) == [l |-> l, inv |-> inv, class |-> class]
+\* requests the application can see (the socket server answers Echo and Flush itself)
+NonF(q) == SelectSeq(q, LAMBDA x : x # "F")
 
 CallOf(c) == CHOOSE x \in SeqSet(g.cs) : x.call = c
 HasCall(c) == \E x \in SeqSet(g.cs) : x.call = c
-IsSyncKind(k) == k \in {"SyncA", "SyncB", "FlushSync", "SyncD", "SyncC", "SyncQ"}
+IsSyncKind(k) == k \in {"SyncA", "SyncB", "FlushSync", "SyncD", "SyncC", "SyncQ", "SyncI"}
+\* requests that never reach the application: flushes; Echo with the local client (EchoSync answers itself)
+Unseen(j) == j.r = "F" \/ (g.family = "local" /\ j.kind = "SyncA")
 CbStarted(k, r) == \E i \in DOMAIN g.cb : g.cb[i].k = k /\ g.cb[i].r = r
 CbEnded(k, r) == \E i \in DOMAIN g.cbe : g.cbe[i].k = k /\ g.cbe[i].r = r
 \* the request of call j was queued before the flush of call k: j is k, or j returned before k
@@ -58,7 +62,7 @@ StepReset(e) ==
 
 StepCall(e) ==
   /\ g' = [g EXCEPT !.cs = Append(@, [call |-> e.call, t |-> e.t, kind |-> e.kind, r |-> e.r, n |-> e.n, retn |-> 0,
-                                      err |-> "-", aftererr |-> g.errseen])]
+                                      err |-> "-", aftererr |-> g.errseen, incb |-> g.open # ""])]
   /\ UNCHANGED <<viol, drift>>
 
 \* a call returned
@@ -69,9 +73,10 @@ StepRet(e) ==
       okret == sync /\ e.err = "nil" /\ ~g.ustop IN
   /\ g' = [g EXCEPT !.cs = [i \in DOMAIN @ |-> IF @[i].call = e.call THEN [@[i] EXCEPT !.retn = e.n, !.err = e.err] ELSE @[i]]]
   /\ viol' = viol
-       \cup FailIf(okret /\ ~g.lied /\ \E j \in need : ~In(g.app, j.r),
+       \cup FailIf(okret /\ ~g.lied /\ \E j \in need : ~In(g.app, j.r) /\ ~Unseen(j),
                    V("FlushMeaning", "returned_before_application_saw_request"))
-       \cup FailIf(okret /\ \E j \in need : ~CbEnded("g", j.r),
+       \* (the local client runs the global callback for Async calls only)
+       \cup FailIf(okret /\ \E j \in need : ~CbEnded("g", j.r) /\ (g.family = "local" => ~IsSyncKind(j.kind)),
                    V("FlushMeaning", "returned_before_global_callback_finished"))
        \cup FailIf(okret /\ \E j \in need : j.r \in g.setcb /\ ~CbEnded("r", j.r),
                    V("FlushMeaning", "returned_before_request_callback_finished"))
@@ -88,10 +93,10 @@ StepGot(e) ==
   LET lab == e.r
       known == \E x \in SeqSet(g.cs) : x.r = lab
       c == CHOOSE x \in SeqSet(g.cs) : x.r = lab
-      before == {j \in SeqSet(g.cs) : j.r # "F" /\ j.call # c.call /\
+      before == {j \in SeqSet(g.cs) : ~Unseen(j) /\ j.call # c.call /\
                    ((j.retn # 0 /\ j.retn < c.n) \/ (j.t = c.t /\ j.n < c.n))} IN
   /\ g' = [g EXCEPT !.app = Append(@, lab)]
-  /\ viol' = viol
+  /\ viol' = IF g.family = "proxy" THEN viol ELSE viol     \* (the wrapper tour of the proxy family logs no Call events)
        \cup FailIf(lab # "F" /\ In(g.app, lab), V("PerConnectionFIFO", "request_delivered_twice"))
        \cup FailIf(lab # "F" /\ ~known, V("PerConnectionFIFO", "request_nobody_made"))
        \cup FailIf(lab # "F" /\ known /\ \E j \in before : ~In(g.app, j.r),
@@ -113,7 +118,10 @@ StepCbS(e) ==
   /\ viol' = viol
        \cup FailIf(e.r # "F" /\ CbStarted(e.k, e.r), V("CallbackOrder", "callback_ran_twice_" \o e.k))
        \cup FailIf(recv /\ g.open # "", V("CallbackOrder", "callbacks_overlap"))
-       \cup FailIf(e.k = "g" /\ ~g.lied /\ ~Pfx(gs2, g.app), V("CallbackOrder", "global_callback_out_of_request_order"))
+       \cup FailIf(e.k = "g" /\ ~g.lied /\ g.family = "sock" /\ ~Pfx(gs2, g.app),
+                   V("CallbackOrder", "global_callback_out_of_request_order"))
+       \cup FailIf(e.k = "g" /\ ~g.lied /\ g.family = "conc" /\ ~Pfx(NonF(gs2), NonF(g.app)),
+                   V("CallbackOrder", "global_callback_out_of_request_order"))
        \cup FailIf(e.k = "g" /\ ~g.lied /\ e.rt # e.xt, V("PerConnectionFIFO", "response_of_wrong_type_delivered"))
        \cup FailIf(~g.lied /\ e.x # e.r, V("PerConnectionFIFO", "response_delivered_to_another_request"))
        \cup FailIf(e.k = "r" /\ recv /\ ~(g.last.ev = "CbE" /\ g.last.k = "g" /\ g.last.r = e.r),
@@ -147,9 +155,14 @@ StepObs(e) ==
   /\ g' = [g EXCEPT !.errseen = @ \/ e.err # "nil"]
   /\ viol' = IF ~e.settled THEN viol ELSE viol
        \* nobody is left who could release these callers
-       \cup FailIf(dead /\ \E x \in stuckset : x.where = "Wait",
+       \* (a call made while the recv routine was inside a callback, i.e. holding cli.mtx, is named apart:
+       \*  the send routine then has its request in hand when the client stops)
+       \cup FailIf(dead /\ \E x \in stuckset : x.where = "Wait" /\ ~CallOf(x.call).incb,
                    V("ErrorIsTerminal", IF g.ustop THEN "caller_blocked_for_ever_in_Wait_after_Stop"
                                         ELSE "caller_blocked_for_ever_in_Wait_after_error"))
+       \cup FailIf(dead /\ \E x \in stuckset : x.where = "Wait" /\ CallOf(x.call).incb,
+                   V("ErrorIsTerminal", IF g.ustop THEN "caller_blocked_for_ever_in_Wait_after_Stop_call_made_during_callback"
+                                        ELSE "caller_blocked_for_ever_in_Wait_after_error_call_made_during_callback"))
        \cup FailIf(dead /\ \E x \in stuckset : x.where = "queueRequest",
                    V("ErrorIsTerminal", IF g.ustop THEN "caller_blocked_for_ever_in_queueRequest_after_Stop"
                                         ELSE "caller_blocked_for_ever_in_queueRequest_after_error"))
@@ -194,7 +207,7 @@ StepPObs(e) ==
   LET run == SeqSet(e.running)
       errd == SeqSet(e.errored) IN
   /\ g' = g
-  /\ viol' = viol
+  /\ viol' = IF ~e.settled THEN viol ELSE viol
        \cup FailIf(e.what = "start_failed" /\ run # {}, V("ErrorIsTerminal", "failed_start_leaks_running_clients"))
        \cup FailIf(e.what = "stopped" /\ run # {}, V("ErrorIsTerminal", "stop_leaves_clients_running"))
        \cup FailIf(e.what = "after_error" /\ errd # {} /\ e.kills = 0, V("ErrorIsTerminal", "client_error_not_signalled_to_node"))
@@ -202,12 +215,37 @@ StepPObs(e) ==
        \cup FailIf(e.what \in {"started", "calls_done"} /\ errd = {} /\ e.kills # 0, V("ErrorIsTerminal", "node_killed_without_client_error"))
   /\ UNCHANGED drift
 
+\* what a call through a wrapper method of proxy/app_conn.go must reach in the application
+ExpectSeen(api) ==
+  CASE api = "InitChainSync" -> <<"InitChain">>
+    [] api = "BeginBlockSync" -> <<"BeginBlock">>
+    [] api = "DeliverTxAsync+EndBlockSync" -> <<"DeliverTx", "EndBlock">>
+    [] api = "CommitSync" -> <<"Commit">>
+    [] api = "CheckTxAsync+FlushSync" -> <<"CheckTx">>
+    [] api = "CheckTxSync" -> <<"CheckTx">>
+    [] api = "FlushAsync" -> << >>
+    [] api = "EchoSync" -> << >>
+    [] api = "InfoSync" -> <<"Info">>
+    [] api = "QuerySync" -> <<"Query">>
+    [] api = "ListSnapshotsSync" -> <<"ListSnapshots">>
+    [] api = "OfferSnapshotSync" -> <<"OfferSnapshot">>
+    [] api = "LoadSnapshotChunkSync" -> <<"LoadSnapshotChunk">>
+    [] api = "ApplySnapshotChunkSync" -> <<"ApplySnapshotChunk">>
+    [] OTHER -> <<"?">>
+StepDeleg(e) ==
+  /\ viol' = viol
+       \cup FailIf(e.seen # ExpectSeen(e.api), V("PerConnectionFIFO", "wrapper_" \o e.api \o "_reached_other_method"))
+       \cup FailIf(e.ok # "true", V("ErrorIsTerminal", "wrapper_call_failed_without_fault"))
+  /\ UNCHANGED <<g, drift>>
+
 Skip == UNCHANGED <<g, viol, drift>>
 
 Step ==
   /\ l <= Len(Trace)
   /\ LET e == Trace[l] IN
        CASE e.ev = "Reset"   -> StepReset(e)
+         [] g.ignore         -> Skip
+         [] e.ev = "Cleanup" -> g' = [g EXCEPT !.ignore = TRUE] /\ UNCHANGED <<viol, drift>>
          [] e.ev = "Call"    -> StepCall(e)
          [] e.ev = "Ret"     -> StepRet(e)
          [] e.ev = "SrvGot"  -> StepGot(e)
@@ -224,6 +262,7 @@ Step ==
          [] e.ev = "Client"  -> StepClient(e)
          [] e.ev = "Kill"    -> StepKill(e)
          [] e.ev = "PObs"    -> StepPObs(e)
+         [] e.ev = "Deleg"   -> StepDeleg(e)
          [] OTHER            -> Skip
   /\ l' = l + 1
 
